@@ -216,18 +216,6 @@ func pathKey(parts []any) string {
 	return sb.String()
 }
 
-func patternKey(parts []any) string {
-	var sb strings.Builder
-	for _, p := range parts {
-		if _, ok := p.(int); ok {
-			sb.WriteString("*\x00")
-		} else {
-			sb.WriteString(fmt.Sprint(p) + "\x00")
-		}
-	}
-	return sb.String()
-}
-
 func hasMiddleIndex(parts []any) bool {
 	for i, p := range parts {
 		if _, ok := p.(int); ok && i < len(parts)-1 {
@@ -716,14 +704,13 @@ func (d *drv) writeShards() error {
 	return nil
 }
 
-func (d *drv) syncContexts() map[string]json.RawMessage {
-	out := map[string]json.RawMessage{}
+// syncContexts registers the contexts the generator published by URL.
+func (d *drv) syncContexts() {
 	for u, b := range d.gen.CtxURLs {
 		if d.loader.Raw(u) == nil {
 			_ = d.loader.Add(u, b)
 		}
 	}
-	return out
 }
 
 // contextsOf returns the generator contexts referenced by URL in doc.
